@@ -168,12 +168,76 @@ def make_reaction(ri, reactant, X, form='str', tag=None, route='mol', scale=1.0,
     else:
         basis = 'mol'
     definition = as_string(d, tagmap) if form == 'str' else as_dict(d, tagmap)
-    rxn = t.Reaction(definition, reactant=reactant, X=X, chemicals=chems, basis=basis)
+    rxn = build_reaction(definition, reactant, X, chems, basis)
     if route == 'wt-set':
         rxn.basis = 'wt'
     elif route == 'wt-copy':
         rxn = rxn.copy(basis='wt')
     return rxn
+
+def build_reaction(definition, reactant, X, chems, basis='mol', probe=True, **kw):
+    """`Reaction(definition, ...)` followed by the TWIN PROBE: further reactions are built from the very same definition (string or
+    dict object) in the same execution — one with another reactant, one that is then moved to the other basis in place — and the
+    reaction built first must be untouched by that: each reaction built from a definition behaves like a reaction built alone.
+    (Anything the library shares between reactions built from equal definitions, e.g. a memoised parse result, shows up here,
+    deterministically and inside one execution.)"""
+    from mc.engine import Violation
+    t = fx.tmo()
+    rxn = t.Reaction(definition, reactant=reactant, X=X, chemicals=chems, basis=basis, **kw)
+    if not probe or not definition: return rxn
+    d0 = rxn_digest(rxn)
+    kw2 = {k: v for k, v in kw.items() if k == 'phases'}
+    st = rxn._stoichiometry
+    neg = sorted({int(idx[-1]) if isinstance(idx, tuple) else int(idx) for idx, v in st.nonzero_items() if v < 0})
+    rname = reactant if isinstance(reactant, str) else reactant[-1]
+    others = [chems.IDs[j] for j in neg if chems.IDs[j] != rname]
+    changed = False
+    try:
+        # both twins are always built and one verdict is given, so that the outcome does not depend on which of them bites
+        if others:
+            t.Reaction(definition, reactant=others[0], X=0.5, chemicals=chems, basis=basis, **kw2)
+            changed = changed or rxn_digest(rxn) != d0
+        tw = t.Reaction(definition, reactant=reactant, X=0.5, chemicals=chems, basis=basis, **kw2)
+        tw.basis = 'wt' if basis == 'mol' else 'mol'
+        changed = changed or rxn_digest(rxn) != d0
+    except Exception as e:
+        raise Violation('shared-definition', 'building further reactions from the same definition failed or disturbed the first one',
+                        match=dict(form='str' if isinstance(definition, str) else 'dict', tagged=bool(rxn._phases)))
+    if changed:
+        raise Violation('shared-definition', 'building further Reactions from the same definition (another reactant / basis switched in '
+                        'place) changed the stoichiometry of the Reaction built first: the objects share state',
+                        match=dict(form='str' if isinstance(definition, str) else 'dict', tagged=bool(rxn._phases)))
+    return rxn
+
+
+def guard_build(cls):
+    """class decorator: a Violation raised while BUILDING the initial state (twin probe) is reported as a state violation of the
+    initial state (the engine evaluates `invariants` right after `build` and never expands such a configuration)"""
+    from mc.engine import Violation
+    ob, oi, oc = cls.build, cls.invariants, cls.canon
+    class _Broken: pass
+    def build(self, config):
+        try: return ob(self, config)
+        except Violation as v:
+            st = _Broken(); st.config = config; st.build_violation = v
+            return st
+    def invariants(self, st):
+        v = getattr(st, 'build_violation', None)
+        if v is not None: return [v]
+        return oi(self, st)
+    def canon(self, st):
+        if getattr(st, 'build_violation', None) is not None: return (st.config, 'build-violation')
+        return oc(self, st)
+    os_, oa = cls.step, cls.actions
+    def step(self, st, a):
+        v = getattr(st, 'build_violation', None)
+        if v is not None: raise Violation(v.clause, v.msg, match=v.match)      # (plain replay keeps stepping after a bad initial state)
+        return os_(self, st, a)
+    def actions(self, st):
+        if getattr(st, 'build_violation', None) is not None: return []
+        return oa(self, st)
+    cls.build, cls.invariants, cls.canon, cls.step, cls.actions = build, invariants, canon, step, actions
+    return cls
 
 def basis_of(route):
     return 'mol' if route == 'mol' else 'wt'
